@@ -26,7 +26,7 @@ import (
 
 func init() {
 	Register(&Property{ID: "C12", Run: runC12,
-		Rule: "a byte stream of 1-12 well-formed messages (20 B .. 20 KB, also larger than the 4096-byte buffer and than twice it) separated by marker-free bytes, optionally damaged (fake 8=, bad/huge/zero/negative lengths, missing 10=, truncation), delivered under 3-5 schedules (1-byte .. >buffer chunks, cuts inside tags/lengths/checksums, (0,nil) reads, (n>0,err), terminal EOF or error after any byte), raw and through bufio; plus the engine configuration (real readLoop behind simnet chunking, frames at OnIncoming). Non-trivial: the stream yielded at least one frame under at least two different schedules and crossed a buffer boundary or was damaged; distinct: canonical trace hash"})
+		Rule: "a byte stream of 1-12 well-formed messages (20 B .. 20 KB, also larger than the 4096-byte buffer and than twice it) separated by marker-free bytes, optionally damaged (fake 8=, bad/huge/zero/negative lengths, missing 10=, truncation), delivered under 3-5 schedules (1-byte .. >buffer chunks, cuts inside tags/lengths/checksums, (0,nil) reads, (n>0,err), terminal EOF or error after any byte), raw and through bufio; plus the engine configuration (real readLoop behind simnet chunking, frames at OnIncoming); in the engine configuration a header with an unusable BodyLength (the parser on the whole stream is the reference for what the read loop must hand on). Non-trivial: the stream yielded at least one frame under at least two different schedules and crossed a buffer boundary or was damaged; distinct: canonical trace hash"})
 }
 
 type schedReader struct {
